@@ -348,11 +348,20 @@ pub fn methods() -> &'static Vec<MethodMeta> {
     })
 }
 
+/// The method of that name. A method the syntactic scan of the sources cannot see (spelled by a
+/// macro, say) is represented by a placeholder that `Interp::call` / `call_with` skip: the history
+/// simply lacks that call (counted), it is not an error of the code under test.
 pub fn method(name: &str) -> &'static MethodMeta {
-    methods()
-        .iter()
-        .find(|m| m.mi.name == name)
-        .unwrap_or_else(|| panic!("harness: no Builder method {}", name))
+    if let Some(m) = methods().iter().find(|m| m.mi.name == name) {
+        return m;
+    }
+    static ABSENT_INFO: MethodInfo = MethodInfo { name: "<method not visible in the sources>", file: "", receiver: "", params: &[], ret: "", call: None };
+    static ABSENT: MethodMeta = MethodMeta { mi: &ABSENT_INFO, kind: MKind::Other, gi: None };
+    &ABSENT
+}
+
+pub fn is_absent(mm: &MethodMeta) -> bool {
+    mm.mi.call.is_none() && mm.mi.name.starts_with('<')
 }
 
 // ---------------------------------------------------------------------------
